@@ -304,7 +304,7 @@ def check_engagement(ctx, fx):
             kind = "throws std::bad_optional_access / bad_expected_access" if n.get("name") == "value" else "is undefined behaviour"
             ctx.fail("E2", key, "`%s` is reached on a path where nothing establishes that `%s` is engaged; on a disengaged object it %s"
                      % (X.show(n)[:70], X.show(n["recv"])[:50], kind), where=where)
-    ctx.floor("E2", nsite, 340, "accesses to optional-like objects")
+    ctx.floor("E2", nsite, 300, "accesses to optional-like objects")
     ctx.note("E2 (%s): %d access sites are in code no feasible path reaches (skipped)" % (ctx.config, ndead))
     if ndead > 4:
         ctx.broken("E2: %d optional accesses are classified unreachable (at most 4 tolerated; 0 today): the feasibility pruning of the "
@@ -509,7 +509,7 @@ def check_blocks(ctx, fx, cfg):
                           "%d bytes are %s at `%s` and no guard of the form `offset + %d <= size` holds on every path to it: "
                           "out-of-bounds access past the end of the buffer" % (nbytes, "read" if what == "read" else "written", rn(ptr), nel + ic),
                           where=where)
-    ctx.floor("M1", nblk, {"release": 34, "ssse3": 34, "avx512": 36}.get(cfg, 34), "block accesses classified")
+    ctx.floor("M1", nblk, {"release": 28, "ssse3": 28, "avx512": 30}.get(cfg, 28), "block accesses classified")
     ctx.floor("M2", nstack, 3, "copies into stack arrays")
     ctx.note("M1 (%s): %d memcpy sides are outside the decided patterns (destination sized by a separate computation, "
              "inflate window, C-API copies): %s" % (cfg, len(unclassified), "; ".join(sorted({k.split(": ")[0] for k, w in unclassified}))))
@@ -717,7 +717,7 @@ def check_loops(ctx, fx, cfg):
             for v, w, l in ents:
                 if v == "variant":
                     ctx.ok("T2", "%s at %s" % (key, l), w, where=l)
-    ctx.floor("T2", nv, 125, "loops with a recognised variant")
+    ctx.floor("T2", nv, 110, "loops with a recognised variant")
 
 
 # ---------------------------------------------------------------------------
@@ -808,7 +808,7 @@ def check_lookahead(ctx, fx, cfg):
     unp = sum(1 for ents in now.values() for ok, l in ents if not ok)
     ctx.note("M3 (%s): %d look-ahead reads bounded by a dominating guard, %d not decided (caller contracts, table layouts, guards "
              "through other variables)" % (cfg, nproved, unp))
-    ctx.floor("M3", nproved, 115, "look-ahead reads bounded by a dominating guard")
+    ctx.floor("M3", nproved, 100, "look-ahead reads bounded by a dominating guard")
 
 
 # ---------------------------------------------------------------------------
